@@ -81,6 +81,25 @@ def eval_case(case):
         if have != names:
             return False, {'keys': have}, {'keys': names}
         return True, None, None
+    if kind == 'declared':
+        # the entry a name of THIS library carries = the definition written for it in THIS library's text (an entry taken over
+        # from another library - shared parse cache, wrong source string - is self-consistent and can even have the right function)
+        if not DECLARED_TEXT: declared_templates()
+        text = DECLARED_TEXT.get(case['lib'], {}).get(case['template'])
+        if text is None:
+            return True, None, None
+        want_pins, want_kinds = declared_pins(text)
+        for nm in common.run_driver([f"ds.expand {case['template']}"])[0].split(','):
+            e = lib.cells.get(nm)
+            if e is None: continue        # reported by the 'expand' case
+            got_pins = {p: [v[0], bool(v[1])] for p, v in e[1].items()}
+            if got_pins != want_pins:
+                return False, {'cell': nm, 'pin_table': got_pins}, {'pin_table': want_pins, 'declared': text.strip()[:200]}
+            ios = set(id(n) for n in e[0].io_nodes)
+            got_kinds = sorted(n.kind for n in e[0].nodes if id(n) not in ios and n.kind != '__fork__')
+            if got_kinds != want_kinds:
+                return False, {'cell': nm, 'gate_kinds': got_kinds}, {'gate_kinds': want_kinds, 'declared': text.strip()[:200]}
+        return True, None, None
     cell = case['cell']
     if cell not in lib.cells:
         return False, {'cell': 'missing'}, {'cell': cell}
@@ -128,6 +147,22 @@ def eval_case(case):
     raise ValueError(kind)
 
 
+DECLARED_TEXT = {}     # library -> template -> definition text of THAT library (filled by declared_templates)
+
+
+def declared_pins(text):
+    """pin table and gate kinds written in one definition text, read with regular expressions (independently of bench.parse
+    and of TechLib.__init__): inputs and outputs numbered separately in the order they are written"""
+    import re
+    pins, ni, no = {}, 0, 0
+    for m in re.finditer(r'\b(input|output)\s*\(([^)]*)\)', text, re.I):
+        for nm in [x.strip() for x in m.group(2).split(',') if x.strip()]:
+            if m.group(1).lower() == 'input': pins[nm] = [ni, False]; ni += 1
+            else: pins[nm] = [no, True]; no += 1
+    kinds = sorted(m.group(1) for m in re.finditer(r'=\s*([A-Za-z_][A-Za-z0-9_]*)\s*\(', text))
+    return pins, kinds
+
+
 def declared_templates():
     """library name -> name templates written in the library TEXT of kyupy/techlib.py, read from the module source with `ast`
     (independently of `TechLib.__init__`): every `NAME = TechLib(<string>)`; entries are separated by `;`, the first word of
@@ -148,7 +183,9 @@ def declared_templates():
             tmpls = []
             for ent in src.split(';'):
                 w = ent.split()
-                if w: tmpls.append(w[0])
+                if w:
+                    tmpls.append(w[0])
+                    for nm in names: DECLARED_TEXT.setdefault(nm, {})[w[0]] = ent.strip()[len(w[0]):]
             for nm in names: out[nm] = tmpls
         else:
             try: v = ev(node.value)
@@ -172,6 +209,13 @@ def oracle(ck, variants):
         for t in declared.get(ln, []):
             if t not in templates: templates.append(t)
         ck.hist[f'declared-templates:{ln}'] += len(declared.get(ln, []))
+        for t in declared.get(ln, []):
+            case = {'kind': 'declared', 'lib': ln, 'template': t}
+            try: ok, obs, exp = eval_case(case)
+            except Exception as ex: ok, obs, exp = False, {'raised': f'{type(ex).__name__}: {ex}'[:300]}, None
+            ck.case(key=(ln, t, 'declared'), sample=case, tag=['declared-text', 'lib:' + ln])
+            if not ok:
+                ck.violation('declared-definition', f'{ln}: the cells of template {t} do not carry the definition written for them in the text of {ln}', case, obs, exp)
         for t in templates:
             case = {'kind': 'expand', 'lib': ln, 'template': t}
             try: ok, obs, exp = eval_case(case)
